@@ -89,7 +89,7 @@ def internal_forces(vk, cfg):
         vk.canary("moment-tensor==0", M, 0 * M) if vk.sym else None
 
 
-@contract("C14", "loads", configs=[dict(item=i, template=t) for i in ("bodyforce", "gravity", "mass") for t in ("RegionTriangle", "RegionQuad", "RegionTetra", "RegionQuadraticTriangle")] + [dict(item="pointload", axi=a) for a in (False, True)] + [dict(item=i) for i in ("mpc", "mpc-center-in-points", "contact")])
+@contract("C14", "loads", configs=[dict(item=i, template=t) for i in ("bodyforce", "gravity", "mass") for t in ("RegionTriangle", "RegionQuad", "RegionTetra", "RegionQuadraticTriangle")] + [dict(item="pointload", axi=a) for a in (False, True)] + [dict(item="pointload", axi=a, apply_on=1) for a in (False, True)] + [dict(item=i) for i in ("mpc", "mpc-center-in-points", "contact")])
 def loads(vk, cfg):
     item = cfg["item"]
     if item in ("bodyforce", "gravity", "mass"):
@@ -164,6 +164,25 @@ def loads(vk, cfg):
         fc = fem.FieldContainer([f])
         vals = vk.reals("load", (2, 2), near=1.0)
         pts = [1, 3]
+        if cfg.get("apply_on"):
+            # the load acts on the SECOND field of a two-field container (apply_on=1): the first field's block of the
+            # vector is zero, the second field's block carries the values (x 2 pi R of the loaded points)
+            g0 = fem.Field(rg, dim=1, values=vk.reals("s", (npts, 1), near=0.0, spread=0.05))
+            fc2 = fem.FieldContainer([g0, f])
+            it = fem.PointLoad(fc2, points=pts, values=vals, apply_on=1, axisymmetric=axi)
+            vk.real(fem.PointLoad._vector)
+            rr = np.asarray(dense(vk, lambda: it.assemble.vector(fc2))).reshape(-1)
+            spec = np.zeros((npts, 2), dtype=object if vk.sym else float)
+            if vk.sym:
+                spec[...] = LP()
+            for k, p_ in enumerate(pts):
+                w = 2 * (ring.PI() if vk.sym else np.pi) * rg.mesh.points[p_, 1] if axi else 1
+                spec[p_] = vals[k] * w
+            vk.ensures_eq("apply_on=1/block of the first field is zero", rr[:npts], 0 * rr[:npts])
+            vk.ensures_eq("apply_on=1/block of the loaded field==values(*2 pi R)", rr[npts:].reshape(npts, 2), spec)
+            if vk.sym:
+                vk.canary("apply_on=1/load lands in the first field", rr[npts:], 0 * rr[npts:])
+            return
         it = fem.PointLoad(fc, points=pts, values=vals, axisymmetric=axi)
         vk.real(fem.PointLoad._vector)
         r = np.asarray(dense(vk, lambda: it.assemble.vector(fc))).reshape(npts, 2)
